@@ -53,6 +53,61 @@ DFLT = cbor2.dumps(COST_MODELS, default=default_encoder).hex()      # the fallba
 TAGNAME = {0: 'spend', 1: 'mint', 2: 'certificate', 3: 'withdrawal', 4: 'voting', 5: 'proposing'}
 
 
+def _loads(b, i=0, key=False):
+    """the harness's own CBOR reader for the transaction handed to evaluate_tx (the library's patched cbor2 decoder cannot
+    read a map keyed by a constructor with fields: known finding C18-map-key-unhashable-decode).  Arrays -> list (tuple inside
+    a map key), maps -> dict, tags -> cbor2.CBORTag"""
+    m, ai = b[i] >> 5, b[i] & 31
+    if ai == 31:
+        i += 1
+        out, chunks = [], []
+        while b[i] != 0xff:
+            if m in (2, 3):
+                v, i = _loads(b, i, key); chunks.append(v)
+            elif m == 5:
+                k, i = _loads(b, i, True); v, i = _loads(b, i, key); out.append((k, v))
+            else:
+                v, i = _loads(b, i, key); out.append(v)
+        i += 1
+        if m == 2:
+            return b''.join(chunks), i
+        if m == 3:
+            return ''.join(chunks), i
+        if m == 5:
+            return (tuple(out) if key else dict(out)), i
+        return (tuple(out) if key else out), i
+    if ai < 24:
+        n, j = ai, i + 1
+    else:
+        k = {24: 1, 25: 2, 26: 4, 27: 8}[ai]
+        n, j = int.from_bytes(b[i + 1:i + 1 + k], 'big'), i + 1 + k
+    if m == 0:
+        return n, j
+    if m == 1:
+        return -1 - n, j
+    if m == 2:
+        return bytes(b[j:j + n]), j + n
+    if m == 3:
+        return bytes(b[j:j + n]).decode(), j + n
+    if m == 4:
+        out = []
+        for _ in range(n):
+            v, j = _loads(b, j, key); out.append(v)
+        return (tuple(out) if key else out), j
+    if m == 5:
+        out = []
+        for _ in range(n):
+            k, j = _loads(b, j, True); v, j = _loads(b, j, key); out.append((k, v))
+        return (tuple(out) if key else dict(out)), j
+    if m == 6:
+        v, j = _loads(b, j, key)
+        if n in (2, 3) and isinstance(v, bytes):
+            v = int.from_bytes(v, 'big')
+            return (v if n == 2 else -1 - v), j
+        return cbor2.CBORTag(n, v), j
+    return {20: False, 21: True, 22: None, 23: None}.get(n, n), j
+
+
 def rid_of(data):
     """the scenario puts the redeemer id first in every redeemer datum shape"""
     if isinstance(data, int):
@@ -118,7 +173,7 @@ class Ctx(ChainContext):
         self.evals += 1
         if isinstance(cbor, str):
             cbor = bytes.fromhex(cbor)
-        tx = cbor2.loads(cbor)
+        tx = _loads(cbor)[0]
         red = tx[1].get(5)
         out = {}
         if red is None:
@@ -180,6 +235,8 @@ def _parse(b, i):
         for _ in range(n):
             k, j = _parse(b, j)
             v, j = _parse(b, j)
+            if isinstance(k, cbor2.CBORTag):
+                k = key_pdata(k)                 # a constructor as map key: a hashable PlutusData instance
             d[k] = v
         return d, j
     if m == 6:
@@ -229,6 +286,21 @@ def to_pdata(v):
     # constructor id only print alike
     cls = dataclasses.make_dataclass('Listing', flds, bases=(PlutusData,), namespace={'CONSTR_ID': cid})
     return cls(*vals)
+
+
+def key_pdata(v):
+    """constructor with int / bytes fields -> instance of a hashable PlutusData dataclass (what a user keys a map datum with)"""
+    if 121 <= v.tag < 128:
+        cid, fs = v.tag - 121, v.value
+    elif 1280 <= v.tag < 1401:
+        cid, fs = v.tag - 1280 + 7, v.value
+    else:
+        raise ValueError('map key: not a compact constructor tag')
+    flds = [(f'f{i}', type(f)) for i, f in enumerate(fs)]
+    if any(t not in (int, bytes) for _, t in flds):
+        raise ValueError('map key: field that is neither int nor bytes')
+    cls = dataclasses.make_dataclass('AssetClass', flds, bases=(PlutusData,), namespace={'CONSTR_ID': cid}, unsafe_hash=True)
+    return cls(*fs)
 
 
 def mk_data(hexcbor, form, count=True):
